@@ -1,4 +1,6 @@
 """C01 — compiled code means what the program means: placement discipline of the statement-lifting transformation."""
+CANON = True
+
 import ast
 
 from .. import compq, idflow, placement, pyq, rflow
